@@ -286,7 +286,9 @@ func (x *Exec) symValue(st *State, t types.Type, name string) Value {
 		st.axiom(mkLe(mkInt(0), ln))
 		cp := freshVar(name+"$cap", SInt)
 		st.axiom(mkLe(ln, cp))
-		return &SliceV{cell: c, off: mkInt(0), len: ln, cap: cp, elem: u.Elem(), named: t}
+		nl := freshVar(name+"$isnil", SBool)
+		st.axiom(mkImplies(nl, mkAnd(mkEq(ln, mkInt(0)), mkEq(cp, mkInt(0)))))
+		return &SliceV{cell: c, off: mkInt(0), len: ln, cap: cp, elem: u.Elem(), named: t, nilT: nl}
 	case *types.Interface:
 		return &Opaque{typ: t, tag: name}
 	case *types.Map:
